@@ -87,6 +87,37 @@ def _load_twin():
         w = monitors._wrap_builtin(name, f)
         table[name] = w
         monitors.M.fn_names[id(w)] = 'builtin:' + name
+        monitors.M.all_lambdas_alive.append(w)      # never freed: its id must not be reused by another callable
+
+
+WRAPPERS_ON = True
+
+
+def set_builtin_wrappers(enabled):
+    """The builtin monitor replaces every (non-class) entry of FUNCTIONS by a pass-through Python wrapper. Checks that
+    do not read what it records run with the ORIGINAL table entries, so that nothing a change might test about a
+    builtin (its type, identity, signature, C-level fast paths) is masked by the instrumentation."""
+    global WRAPPERS_ON, SNAP_A, SNAP_B
+    if enabled == WRAPPERS_ON:
+        return
+    from . import monitors, modstate
+    table = monitors.M.functions.FUNCTIONS
+    for name, orig in monitors.M.orig_functions.items():
+        if name in monitors.M.wrapped_functions and name in table:
+            table[name] = monitors.M.wrapped_functions[name] if enabled else orig
+    ttable = TWIN_MODULES['smartquery.functions'].FUNCTIONS
+    for name in list(ttable):
+        f = ttable[name]
+        if enabled and not isinstance(f, type) and not hasattr(f, '_sim_orig'):
+            w = monitors._wrap_builtin(name, f)
+            ttable[name] = w
+            monitors.M.fn_names[id(w)] = 'builtin:' + name
+            monitors.M.all_lambdas_alive.append(w)
+        elif not enabled and hasattr(f, '_sim_orig'):
+            ttable[name] = f._sim_orig
+    WRAPPERS_ON = enabled
+    SNAP_A = modstate.snapshot([m for n, m in sorted(sys.modules.items()) if n == 'smartquery' or n.startswith('smartquery.')])
+    SNAP_B = modstate.snapshot([m for n, m in sorted(TWIN_MODULES.items())])
 
 
 def reset_run_state():
